@@ -7,11 +7,14 @@ open Firebolt
 
 def check (input impl : String) : Verdict :=
   match words input with
-  | ["rate", r, "parts", k, "n", n] =>
+  | "rate" :: r :: "parts" :: k :: "n" :: n :: modeToks =>
     match r.toNat?, k.toNat?, n.toNat? with
-    | some r, some _k, some n =>
+    | some r, some _k, some n0 =>
       let toks := words impl
       let get (key : String) : Nat := ((kvGet toks key) >>= (·.toNat?)).getD 0
+      let mode := modeToks.headD ""
+      -- the number of recovery records that must have been emitted: all of them, except after a revocation (those emitted so far)
+      let n := if mode == "revoke" then get "emitted" else if mode == "seq" then get "n" else n0
       let bound := minElapsedMs r 100 n
       let sp : Option String :=
         if kvGet toks "elapsedMs" == none then some "unparsable-observation"
@@ -20,9 +23,11 @@ def check (input impl : String) : Verdict :=
         else if get "limit" ≠ r || get "burst" ≠ 100 then some "limiter-not-built-from-configuration"
         else if get "elapsedMs" * 100 < bound * 90 then some "rate-exceeded"
         else if get "mainMs" > 2000 then some "main-consumer-delayed"
+        else if mode == "revoke" && (kvGet toks "revokeMs" == some "-1" || get "revokeMs" > 300) then some "main-consumer-delayed-by-recovery-limit"
+        else if mode == "seq" && n ≠ n0 then some "recovery-events-lost"
         else none
       -- timing is not predicted: the model observation is the implementation's, judged by the bound
-      { model := impl, spec := sp, tags := [s!"rate{r}", if _k > 1 then "multi-partition" else "one-partition"] }
+      { model := impl, spec := sp, tags := [s!"rate{r}", if _k > 1 then "multi-partition" else "one-partition"] ++ (if mode == "" then [] else [mode]) }
     | _, _, _ => { model := "bad-input" }
   | _ => { model := "bad-input" }
 
